@@ -256,7 +256,11 @@ def run_life_scenario(sc):
 def _run_chunk(chunk):
     _setup()
     import logging
-    logging.disable(logging.CRITICAL)
+    # Python's default configuration: records of level WARNING and above ARE formatted (by the "last resort"
+    # handler, to stderr).  Keep that - formatting a record is where a %r of a program object would run user
+    # code - but send the text to the null device.
+    logging.lastResort = logging.StreamHandler(open(os.devnull, "w"))
+    logging.lastResort.setLevel(logging.WARNING)
     out = []
     for sc in chunk:
         out.append(run_hook_scenario(sc) if sc["type"] == "hooks" else run_life_scenario(sc))
